@@ -52,12 +52,22 @@ def gen_case(rng, index, tier):
         name = rng.choice(['a', 'b c', 'd%d' % i, 'ü', 'x.txt', 'sub/deep/f',
                            'sub/g']) + str(i)
         loc = D + '/' + name
+        dup = False
+        if entries and rng.random() < 0.25:
+            # the same path trashed twice: two entries share one original
+            # location; restoring both must refuse the second
+            loc = rng.choice(entries)['loc']
+            dup = True
         kind = rng.choice(trashgen.PAYLOAD_KINDS)
         e = trashgen.add_trashed(L, rng, tdir, 'n%d' % i, loc,
                                  '20%02d-01-0%dT10:00:00' % (10 + i, i + 1),
                                  kind, tag, volume_rel=volume, home=home)
-        dest = rng.choice(DEST)
+        dest = rng.choice(DEST) if not dup else \
+            [x for x in entries if x['loc'] == loc][0]['dest']
         e['dest'] = dest
+        if dup:
+            entries.append(e)
+            continue
         dtag = tag + 'dest'
         if dest == 'file':
             L.add(gen.entry_nodes(rng, loc, 'file', dtag))
@@ -77,6 +87,11 @@ def gen_case(rng, index, tier):
     case = L.desc()
     case['entries'] = entries
     case['overwrite'] = rng.random() < 0.35
+    locs = [e['loc'] for e in entries]
+    if len(set(locs)) != len(locs):
+        # two entries for one path: what --overwrite does among them is not
+        # specified; the refusal without --overwrite is
+        case['overwrite'] = False
     case['sort'] = rng.choice([None, 'date', 'path'])
     sel = rng.choice(['one', 'one', 'all-range', 'all-list', 'rev-list'])
     if n == 1:
@@ -102,8 +117,8 @@ def run_case(case):
         lst = trashio.parse_restore_listing(r0.outtext())
         index_of = {}
         for i, d, p in lst:
-            index_of[p] = i
-        want_paths = [w.abs(e['loc']) for e in ents]
+            index_of[(p, d)] = i
+        want_paths = [(w.abs(e['loc']), e['date'].replace('T', ' ')) for e in ents]
         if sorted(index_of) != sorted(want_paths):
             out['verdict'] = 'inconclusive'
             out['why'] = 'listing does not show the crafted entries'
@@ -135,79 +150,146 @@ def run_case(case):
         out['features'] += ['ow:%s' % case['overwrite'], 'sel:' + case['sel']]
         any_occ = False
         explained = set()
+
+        def keys(e):
+            return ('%s/info/%s.trashinfo' % (e['trash'], e['name']),
+                    '%s/files/%s' % (e['trash'], e['name']))
+
+        def intact(e):
+            ik, pk = keys(e)
+            return snap.subtree(s1, pk) == snap.subtree(s0, pk) and \
+                s1.get(ik) == s0.get(ik)
+
+        def gone(e):
+            ik, pk = keys(e)
+            return pk not in s1 and ik not in s1
+
+        def viol(mech, e, **kw):
+            d = {'run': r.brief(), 'entry': e, 'reply': reply,
+                 'dest_before': snap.fmt_entry(s0.get(e['loc'])),
+                 'dest_after': snap.fmt_entry(s1.get(e['loc'])),
+                 'pair_intact': intact(e), 'pair_gone': gone(e)}
+            d.update(kw)
+            out['violations'].append({'mechanism': mech, 'detail': d})
+
+        # sequential model of the run: who occupies each destination
+        occupant = {}           # loc -> ('orig', kind) | ('entry', e)
+        for e in ents:
+            if e['dest'] != 'none':
+                occupant[e['loc']] = ('orig', e['dest'])
+        stopped = False
+        expect = {}             # id(entry) -> 'restored' | 'refused' | 'free-choice'
         for k in order:
             e = ents[k]
             loc = e['loc']
-            occupied = e['dest'] != 'none'
-            out['features'].append('dest:%s/%s' % (e['dest'], e['kind'][:4]))
-            info_k = '%s/info/%s.trashinfo' % (e['trash'], e['name'])
-            pay_k = '%s/files/%s' % (e['trash'], e['name'])
-            pay0 = snap.subtree(s0, pay_k)
-            dest0 = snap.subtree(s0, loc)
-            dest1 = snap.subtree(s1, loc)
-            pair_intact = snap.subtree(s1, pay_k) == pay0 and \
-                s1.get(info_k) == s0.get(info_k)
-            pair_gone = pay_k not in s1 and info_k not in s1
-            restored = dest1 == pay0 and pair_gone
-            isdir_dest = e['dest'] in ('dir_empty', 'tree', 'link_dir')
-
-            def viol(mech, **kw):
-                d = {'run': r.brief(), 'entry': e, 'reply': reply,
-                     'dest_before': snap.fmt_entry(s0.get(loc)),
-                     'dest_after': snap.fmt_entry(s1.get(loc)),
-                     'pair_intact': pair_intact, 'pair_gone': pair_gone}
-                d.update(kw)
-                out['violations'].append({'mechanism': mech, 'detail': d})
-
-            if occupied and not case['overwrite']:
+            occ = occupant.get(loc)
+            out['features'].append('dest:%s/%s' % (
+                e['dest'] if not occ or occ[0] == 'orig' else 'earlier-restore',
+                e['kind'][:4]))
+            if stopped:
+                expect[id(e)] = 'free-choice'
+                continue
+            if occ is not None and not case['overwrite']:
                 any_occ = True
                 obs['occupied_no_overwrite'] = obs.get('occupied_no_overwrite', 0) + 1
-                if dest1 != dest0:
-                    viol('clobbered-without-overwrite/dest=%s' % e['dest'],
-                         ddiff=snap.fmt_diff(snap.sig_diff(dest0, dest1), 6))
-                if not pair_intact:
-                    viol('pair-not-intact-after-refusal/dest=%s' % e['dest'])
-                if r.exit == 0:
-                    viol('exit0-after-refusal/dest=%s' % e['dest'])
-                if not r.err.strip():
-                    viol('no-message-after-refusal/dest=%s' % e['dest'])
-                explained.update([loc])
-            elif occupied and case['overwrite']:
+                if occ[0] == 'entry':
+                    obs['occupied_by_earlier_restore'] = \
+                        obs.get('occupied_by_earlier_restore', 0) + 1
+                expect[id(e)] = 'refused'
+                stopped = True
+            elif occ is not None and case['overwrite']:
                 any_occ = True
                 obs['occupied_overwrite'] = obs.get('occupied_overwrite', 0) + 1
-                if not isdir_dest:
-                    if not restored and not (pair_intact and dest1 == dest0):
-                        viol('overwrite-nondir-wrong-result/dest=%s' % e['dest'])
-                    elif restored:
-                        obs['overwritten'] = obs.get('overwritten', 0) + 1
+                isdir = (occ[0] == 'orig' and occ[1] in ('dir_empty', 'tree', 'link_dir')) \
+                    or (occ[0] == 'entry' and occ[1]['kind'] in ('tree', 'dir_empty'))
+                if isdir:
+                    expect[id(e)] = 'unspecified-onto-dir'
+                    occupant[loc] = ('unknown', None)
+                elif e['kind'] in ('tree', 'dir_empty'):
+                    # a trashed DIRECTORY over an existing file/symlink:
+                    # rename(2) gives ENOTDIR, shutil.move then refuses
+                    expect[id(e)] = 'dir-over-nondir'
+                    stopped = True
                 else:
-                    # unspecified: only "no loss": payload signature exists
-                    # in the trash or somewhere under the destination
-                    found = pair_intact or restored
-                    if not found:
-                        for q in s1:
-                            if q not in s0 and snap.subtree(s1, q) == pay0:
-                                found = True
-                                explained.add(q)
-                                break
-                    if not found:
-                        viol('overwrite-onto-dir-lost-entry/dest=%s' % e['dest'])
+                    expect[id(e)] = 'restored'
+                    occupant[loc] = ('entry', e)
             else:
-                if restored:
-                    obs['restored'] = obs.get('restored', 0) + 1
-                elif pair_intact and loc not in s1:
-                    obs['left_intact'] = obs.get('left_intact', 0) + 1
+                expect[id(e)] = 'restored'
+                occupant[loc] = ('entry', e)
+        refusals = [e for e in ents if expect.get(id(e)) == 'refused']
+        for k in order:
+            e = ents[k]
+            ex = expect[id(e)]
+            ik, pk = keys(e)
+            pay0 = snap.subtree(s0, pk)
+            loc = e['loc']
+            final = occupant.get(loc)
+            if ex == 'refused':
+                if not intact(e):
+                    viol('pair-not-intact-after-refusal/dest=%s' % e['dest'], e)
+                if r.exit == 0:
+                    viol('exit0-after-refusal/dest=%s' % e['dest'], e)
+                if not r.err.strip():
+                    viol('no-message-after-refusal/dest=%s' % e['dest'], e)
+                # what stood there (original occupant or the earlier restored
+                # entry) must be unchanged
+                if final and final[0] == 'orig':
+                    if snap.subtree(s1, loc) != snap.subtree(s0, loc):
+                        viol('clobbered-without-overwrite/dest=%s' % e['dest'], e,
+                             ddiff=snap.fmt_diff(snap.sig_diff(
+                                 snap.subtree(s0, loc), snap.subtree(s1, loc)), 6))
+                elif final and final[0] == 'entry':
+                    p1 = keys(final[1])[1]
+                    if snap.subtree(s1, loc) != snap.subtree(s0, p1):
+                        viol('earlier-restored-entry-clobbered/no-overwrite', e)
+                explained.add(loc)
+            elif ex == 'restored':
+                if not gone(e):
+                    viol('selected-entry-not-restored/dest=%s' % e['dest'], e)
+                elif final and final[0] == 'entry' and final[1] is e:
+                    if snap.subtree(s1, loc) != pay0:
+                        viol('restored-content-differs/dest=%s' % e['dest'], e)
+                    else:
+                        obs['restored'] = obs.get('restored', 0) + 1
+                        if e['dest'] != 'none':
+                            obs['overwritten'] = obs.get('overwritten', 0) + 1
+                explained.add(loc)
+            elif ex == 'dir-over-nondir':
+                if gone(e) and snap.subtree(s1, loc) == pay0:
+                    obs['overwritten'] = obs.get('overwritten', 0) + 1
+                elif intact(e) and snap.subtree(s1, loc) == snap.subtree(s0, loc) \
+                        and r.exit != 0 and r.err.strip():
+                    viol('overwrite-does-not-replace-nondir-with-a-directory-entry', e)
                 else:
-                    viol('free-destination-neither-restored-nor-intact')
+                    viol('overwrite-dir-over-nondir-bad-state/dest=%s' % e['dest'], e)
+                explained.add(loc)
+            elif ex == 'unspecified-onto-dir':
+                # only "no loss": payload signature exists somewhere
+                found = intact(e) or snap.subtree(s1, loc) == pay0
+                if not found:
+                    for q in s1:
+                        if q not in s0 and snap.subtree(s1, q) == pay0:
+                            found = True
+                            explained.add(q)
+                            break
+                if not found:
+                    viol('overwrite-onto-dir-lost-entry/dest=%s' % e['dest'], e)
+                explained.add(loc)
+            else:           # after a refusal: restored (correctly) or intact
+                if intact(e):
+                    obs['left_intact'] = obs.get('left_intact', 0) + 1
+                elif gone(e) and snap.subtree(s1, loc) == pay0:
+                    occupant[loc] = ('entry', e)
+                else:
+                    viol('entry-after-refusal-neither-restored-nor-intact', e)
+                explained.add(loc)
         # entries not selected must be intact
+        sel_locs = set(ents[k]['loc'] for k in order)
         for k, e in enumerate(ents):
             if k in order:
                 continue
-            info_k = '%s/info/%s.trashinfo' % (e['trash'], e['name'])
-            pay_k = '%s/files/%s' % (e['trash'], e['name'])
-            if snap.subtree(s1, pay_k) != snap.subtree(s0, pay_k) or \
-                    s1.get(info_k) != s0.get(info_k) or \
-                    snap.subtree(s1, e['loc']) != snap.subtree(s0, e['loc']):
+            if not intact(e) or (e['loc'] not in sel_locs and
+                                 snap.subtree(s1, e['loc']) != snap.subtree(s0, e['loc'])):
                 out['violations'].append({
                     'mechanism': 'unselected-entry-touched',
                     'detail': {'run': r.brief(), 'entry': e, 'reply': reply}})
